@@ -185,6 +185,25 @@ def check(chk):
     _score_queue_adds(chk, repo)
     _remembered_selection(chk, repo, md, super_chain)
     _restart_list(chk, repo)
+    # what a player accumulated over the game is reset only when the player is created; a new turn resets the per-turn figure only
+    EBG = "mpf/devices/extra_ball_group.py"
+    ebg = repo.cls(EBG, "ExtraBallGroup")
+    pa_ = ebg.methods["_player_added"] if "_player_added" in ebg.methods else None
+    ts_ = ebg.methods["_player_turn_starting"]
+    chk.analysed(ts_, pa_)
+
+    def zeroed(m):
+        return sorted(src(x.targets[0].slice) for x in walk_local(m.node) if isinstance(x, ast.Assign) and isinstance(x.targets[0], ast.Subscript) and
+                      src(x.targets[0].value) == "player" and src(x.value) == "0")
+    chk.ob("DOM-22", "a new turn resets the extra-ball group's per-ball count only (the per-game count is what the player accumulated)",
+           zeroed(ts_) == ["self._player_var_per_ball"], ts_.where(), detail=str(zeroed(ts_)), construct=ts_.ident, text="extra ball group turn reset")
+    if pa_ is not None:
+        chk.ob("DOM-22", "a new player starts with both extra-ball counts at zero", set(zeroed(pa_)) >= {"self._player_var_per_ball", "self._player_var_per_game"},
+               pa_.where(), detail=str(zeroed(pa_)), construct=pa_.ident, text="extra ball group player init")
+    # the timer's per-run values come from its configuration at every load (shared with C13 LOAD-13): one player's changed tick interval
+    # must not set the pace of the next player's timer
+    from sa.rules.c13 import _timer_reloaded_from_config
+    _timer_reloaded_from_config(chk, repo)
     # the player a mode hands to its devices is the mode's own (set per turn for game modes, None for the others): never whoever is up
     amd = repo.func("mpf/core/mode.py", "Mode._add_mode_devices")
     chk.analysed(amd)
@@ -655,6 +674,8 @@ def battery():
         M("falsy previous value reported as 0", PL, "        new_entry = False\n        prev_value = 0\n        if name in self.vars:\n            prev_value = self.vars[name]\n        else:\n            new_entry = True\n", "        new_entry = name not in self.vars\n        prev_value = self.vars.get(name) or 0\n", "DOM-21"),
         M("twin: previous value by get with default", PL, "        new_entry = False\n        prev_value = 0\n        if name in self.vars:\n            prev_value = self.vars[name]\n        else:\n            new_entry = True\n", "        new_entry = name not in self.vars\n        prev_value = self.vars.get(name, 0)\n", None),
         M("non-game mode devices bound to whoever is up", "mpf/core/mode.py", "                device.device_loaded_in_mode(mode=self, player=self.player)", "                device.device_loaded_in_mode(mode=self, player=self.player or (self.machine.game and self.machine.game.player))", "DOM-22"),
+        M("turn start wipes the per-game extra ball count", "mpf/devices/extra_ball_group.py", "        self.player = player\n        player[self._player_var_per_ball] = 0\n\n    def _ball_started", "        self.player = player\n        player[self._player_var_per_game] = 0\n\n    def _ball_started", "DOM-22"),
+        M("timer tick interval evaluated once at initialisation", "mpf/devices/timer.py", "        self.tick_secs = self.config['tick_interval'].evaluate([])\n\n        try:", "        try:", "LOAD-13"),
     ]
 
 
